@@ -317,6 +317,9 @@ def verify_contract(I: Interp, c: Contract, prop, only_case=None, prefix=None, l
                 except PathDone:
                     return 'done', None
                 except CheckerError as e:
+                    from .pyvc import JobAbort
+                    if isinstance(e, JobAbort):
+                        raise
                     return 'unsupported', str(e)
             finally:
                 I.target, I.target_contract = None, None
